@@ -56,7 +56,8 @@ CONSTANTS Kinds,       \* subset of {"smm", "gpb1"}
           MixRatios,   \* set of <<p, q>>     : GPB1 mix_ratio = p/q
           Layouts,     \* set of naturals: which scalar means/variances the models carry
           MaxUpdates,  \* bound on the number of update() calls
-          BigN,        \* model counts >= BigN are explored for one update fewer
+          BigN,        \* SMM with >= BigN models is explored for one update fewer
+          GpbBigN,     \* GPB1 with >= GpbBigN models is explored for one update fewer
           NoObsAt,     \* set of update counts after which update([]) is explored as well
           KeepHist     \* BOOLEAN: keep the history variable (behaviours for the replay driver)
 
@@ -157,7 +158,7 @@ Start == /\ pc = "kind"
          /\ pc' = "ready"
          /\ UNCHANGED <<lik, prior, didReset, alts, comb, closed, handBack, nupd, hist>>
 
-UpdBound == IF cfg.n >= BigN THEN MaxUpdates - 1 ELSE MaxUpdates
+UpdBound == IF cfg.n >= (IF cfg.kind = "gpb1" THEN GpbBigN ELSE BigN) THEN MaxUpdates - 1 ELSE MaxUpdates
 BeginUpdate == /\ pc = "ready" /\ ~closed /\ nupd < UpdBound
                /\ lik' = <<>> /\ pc' = "posing"
                /\ UNCHANGED <<cfg, models, mass, modeMass, prior, didReset, alts, comb,
@@ -347,12 +348,15 @@ Leaf == pc = "closed" \/ (pc = "ready" /\ nupd = UpdBound)
 Emit == (KeepHist /\ Leaf) =>
           PrintT("BEH " \o ToJson([cfg |-> cfg, hist |-> hist, closed |-> closed, hb |-> handBack]))
 
-(* ---- named constant values for the cfg files ---- *)
+(* ---- named constant values for the cfg files (cfg syntax has no tuples) ---- *)
 ThQuick     == {<<10, 101>>, <<26, 101>>}
 ThAll       == {<<1, 1009>>, <<10, 101>>, <<26, 101>>, <<41, 101>>}
-PctQuick    == {<<51, 101>>, <<91, 101>>}
-PctAll      == {<<51, 101>>, <<67, 101>>, <<91, 101>>}
-MixQuick    == {<<3, 2>>}
+PctQuick    == {<<34, 101>>, <<91, 101>>}
+PctOne      == {<<91, 101>>}
+PctLow      == {<<34, 101>>}
+MixOne      == {<<3, 2>>}
+PctAll      == {<<34, 101>>, <<51, 101>>, <<67, 101>>, <<91, 101>>}
+MixQuick    == {<<3, 2>>, <<1, 2>>}
 MixAll      == {<<3, 2>>, <<2, 1>>, <<1, 2>>}
 ThSim       == {<<1, 1009>>, <<3, 101>>, <<10, 101>>}
 =============================================================================
